@@ -28,7 +28,7 @@ def run_case(ctx):
     common.draw_env(ctx)
     common.prelude(ctx)
     data_read = True
-    m = world.gen_world(src, special_ok=False, max_boxes=12, scale=("manyboxes", "farcorner", "manyfields", "longdomain"), scale_rate=80)
+    m = world.gen_world(src, special_ok=False, max_boxes=12, scale=("manyboxes", "farcorner", "manyfields", "longdomain", "manyfiles"), scale_rate=40)
     special = src.flag("special_payload", 4)
     nanskip = False
     if special:
